@@ -25,6 +25,7 @@
 from dataclasses import dataclass
 from numpy import (
     array,
+    bool_,
     float64,
     fromiter,
     identity,
@@ -46,6 +47,7 @@ from pyimpspec.analysis.utility import (
     _calculate_pseudo_chisqr,
 )
 from pyimpspec.analysis.drt.result import DRTResult
+from pyimpspec.exceptions import DRTError
 from pyimpspec.progress import Progress
 from pyimpspec.typing import (
     ComplexImpedance,
@@ -307,17 +309,29 @@ def _test_lambda_values(
         total=len(lambda_values) + 1,
     ) as prog:
         solution_norms: NDArray[float64] = zeros(lambda_values.size, dtype=float64)
+        converged: NDArray[bool_] = zeros(lambda_values.size, dtype=bool_)
 
         i: int
         for i, lambda_value in enumerate(lambda_values):
             A_tikh: NDArray[float64] = _generate_tikhonov_matrix(A, I, lambda_value)
-            g_tau: NDArray[float64] = _solve(A_tikh, b, maxiter)
+            try:
+                g_tau: NDArray[float64] = _solve(A_tikh, b, maxiter)
+            except RuntimeError:
+                # The NNLS solver may run out of iterations when the
+                # regularization is too weak: skip such candidates.
+                prog.increment()
+                continue
+
             solution_norms[i] = sqrt(array_sum(g_tau**2))
+            converged[i] = True
             prog.increment()
 
+    if not converged.any():
+        raise DRTError("Failed to solve the NNLS problem for all of the tested lambda values!")
+
     return (
-        lambda_values,
-        solution_norms,
+        lambda_values[converged],
+        solution_norms[converged],
     )
 
 
